@@ -23,7 +23,7 @@ SELECT = {
     "C11": ("R6:", "C11-", "close-when-flushed-means-queue-dropped", "R1[req]", "coverage:", "service@W[service]/loop0"),
     "C12": ("C12-", "W4-", "W5-", "R5:", "pre:owns-output-state", "R1[out]", "disconnected-before-the-lock-is-released", "lock:", "W1-", "coverage:", "pre:numbytes", "pre:nonneg"),
     "C13": ("C13-", "__init__@IO/raises", "__init__@IO/coverage", "R4:", "pre:worker-never-closes", "no-teardown", "connected-only-cleared", "coverage:", "_flush_some@W/raises", "_flush_some@IOL/raises", "handle_write@IO/raises", "write_soon@W/raises", "handle_close@IO/",
-            "dispatcher.send@", "dispatcher.recv@", "handle_read@IO/"),
+            "dispatcher.send@", "dispatcher.recv@", "handle_read@IO/", "del_channel@IO/"),
     "C19": ("C19-", "pre:partial-expecting-request", "pre:holds-requests-lock", "coverage:", "pre:owns-output-state", "R1[req]:sent_continue", "R1[req]:request-"),
 }
 FUNCS = {
@@ -72,6 +72,10 @@ def main_for(prop, argv=None, level="other"):
         resq = world.run_functions(ck, ["dispatcher"], ["task.ThreadedTaskDispatcher.add_task", "task.ThreadedTaskDispatcher.handler_thread"],
                                    timeout=20, hooks_mod="contracts.dispatcher")
         world.report(ck, resq)
+    if prop == "C04":
+        # a request in progress is answered: the idle sweep of the server marks no connection that still has a request queued or running
+        resm = world.run_functions(ck, ["server"], ["server.BaseWSGIServer.maintenance"], timeout=20, hooks_mod="contracts.server")
+        world.report(ck, resm, select=lambda n: "reaps-only-idle-and-stale-connections" in n or "coverage:" in n)
     if prop == "C04" and ck.tier == "thorough":
         # the two facts the channel world only ASSUMES (backlog counter non-negative, a pending request is never completed) and the monitor
         # invariants, judged on the executions of the repository's tests
@@ -95,14 +99,17 @@ def main_for(prop, argv=None, level="other"):
         world.report(ck, rest, select=lambda n: "C01-F7-parser-close-decision-honoured" in n or "C03-short-body-closes" in n or "coverage:" in n
                      or "C09-a-socket-error-during-the-response-closes-the-connection" in n or "C03-socket-error-closes" in n)
         # ... and the parser takes that decision for every ambiguous framing (Content-Length next to chunked, Transfer-Encoding off HTTP/1.1)
-        resp11 = world.run_functions(ck, ["adj", "buffers_abs", "receiver", "parser"], ["parser.HTTPRequestParser.parse_header"],
+        resp11 = world.run_functions(ck, ["adj", "buffers_abs", "receiver", "parser"], ["parser.HTTPRequestParser.parse_header", "parser.HTTPRequestParser.received"],
                                      timeout=20 if ck.tier == "quick" else 60, hooks_mod="contracts.parser")
-        world.report(ck, resp11, select=lambda n: "C01-content-length-next-to-chunked-closes" in n or "C01-transfer-encoding-on-non-1.1-closes" in n or "coverage:" in n)
+        # ... and a body whose framing the receiver found faulty is an error request (answered 400 and closed), never a complete one
+        world.report(ck, resp11, select=lambda n: "C01-content-length-next-to-chunked-closes" in n or "C01-transfer-encoding-on-non-1.1-closes" in n or "coverage:" in n
+                     or "C06-a-body-framing-error-refuses-the-message" in n)
     if prop == "C19":
         # "never for HTTP/1.0": the flag the channel acts on is set by parse_header, only for a 1.1 request that asks for it
-        resp = world.run_functions(ck, ["adj", "buffers_abs", "receiver", "parser"], ["parser.HTTPRequestParser.parse_header"],
+        resp = world.run_functions(ck, ["adj", "buffers_abs", "receiver", "parser"], ["parser.HTTPRequestParser.parse_header", "parser.HTTPRequestParser.received"],
                                    timeout=20 if ck.tier == "quick" else 60, hooks_mod="contracts.parser")
-        world.report(ck, resp, select=lambda n: "expect-continue-only-on-1.1" in n or "coverage:" in n)
+        # ... and the mark the channel waits for (head complete) is set for every request that still waits for its body
+        world.report(ck, resp, select=lambda n: "expect-continue-only-on-1.1" in n or "coverage:" in n or "C19-" in n)
     if prop == "C13":
         # listener safety: socket errors on accept / option calls / channel set-up never escape handle_accept nor stop the listener
         res2 = world.run_functions(ck, ["server"], ["server.BaseWSGIServer.handle_accept"], timeout=20, hooks_mod="contracts.server")
